@@ -114,6 +114,13 @@ def cps(s: Iterable[int]) -> str:
 # (a) escaping helpers against the model
 
 
+def _parses_to(text: str, want: str) -> bool:
+    try:
+        return json.loads(text) == want
+    except Exception:  # noqa: BLE001
+        return False
+
+
 def corr_escapers(ctx: Ctx) -> None:
     from exabgp.reactor.api.response.json import JSON
     from exabgp.reactor.api.response.text import oneline
@@ -150,7 +157,13 @@ def corr_escapers(ctx: Ctx) -> None:
         ctx.evaluations += 1
         ctx.count('escaper-strings')
         real_q = enc._string(s)  # the very call the encoder makes for every string value
-        assert real_q == json.dumps(s)
+        if real_q != json.dumps(s):
+            # the model's `quote` is proved equal to what json.dumps writes (ASCII, every control character escaped): a
+            # string value written any other way is a record the consumer may not be able to read or the writer to send
+            canon = {'stream': 'escaper', 'ascii': real_q.isascii(), 'parses': _parses_to(real_q, s)}
+            if not any(f.canon == canon for f in ctx.failures):
+                ctx.failures.append(Failure('escaper', canon, {'escaper': True, 'cps': [ord(ch) for ch in s][:64]}, f'JSON._string({s[:24]!r}) = {real_q[:60]!r}, json.dumps gives {json.dumps(s)[:60]!r}' + ('' if real_q.isascii() else ': not ASCII, Processes.write() encodes every event as ASCII')))
+            continue
         if q != hx(real_q.encode('ascii')):
             ctx.disagreements.append(Disagreement('quote', {'cps': [ord(ch) for ch in s][:40]}, q[:200], hx(real_q.encode('ascii'))[:200]))
         real_o = cps(ord(ch) for ch in oneline(s))
@@ -1188,6 +1201,16 @@ def run(ctx: Ctx) -> None:
 def replay(path: str) -> int:
     data = json.loads(open(path).read())
     d = data.get('replay') or data.get('case')
+    if d.get('escaper'):
+        from exabgp.reactor.api.response.json import JSON
+
+        s = ''.join(chr(c) for c in d['cps'])
+        got, want = JSON('6.0.0')._string(s), json.dumps(s)
+        print('string       :', [hex(c) for c in d['cps']])
+        print('JSON._string :', got)
+        print('json.dumps   :', want)
+        print('holds        :', got == want)
+        return 0 if got == want else 1
     case = Case.from_json(d)
     rig = R.Rig()
     try:
